@@ -41,7 +41,7 @@ func TestVerifSim(t *testing.T) {
 // a probe (it is reported by that property's own check).
 var classProp = map[string]string{
 	"ack-not-quorum": "C01", "ack-lost-at-install": "C01", "ack-replaced": "C01", "ack-lost-final": "C01",
-	"committed-divergence": "C02", "chain-broken": "C02", "committed-above-leo": "C02", "committed-regressed": "C02", "replica-unreadable": "C02",
+	"committed-divergence": "C02", "committed-entry-dropped-at-install": "C02", "chain-broken": "C02", "committed-above-leo": "C02", "committed-regressed": "C02", "replica-unreadable": "C02",
 	"range-overlap": "C03", "retry-range-changed": "C03", "range-shape": "C03", "retry-stored-again": "C03", "conflicting-retry-acked": "C03", "range-not-contiguous": "C03",
 	"stale-authority-acked": "C04", "older-authority-installed": "C04", "fenced-append-acked": "C04", "stale-authority-acked-after-barrier": "C04",
 }
@@ -71,6 +71,12 @@ func drawCfg(r *simkit.Run) cfg {
 	} else {
 		c.N = 5
 		c.Q = 3 + tp.Weighted([]int{4, 1, 1})
+	}
+	if tp.Intn(8) == 7 {
+		// even voter sets and arbitrary write quorums, including ones whose quorums do
+		// not intersect (2Q <= N): such an authority must never become writable
+		c.N = 2 + 2*tp.Intn(2)
+		c.Q = 1 + tp.Intn(c.N)
 	}
 	c.Channels = 1 + tp.Weighted([]int{3, 2, 1})
 	c.Ops = 6 + tp.Intn(30)
@@ -297,7 +303,7 @@ func (q *qworld) collect() []simkit.Action {
 				}
 				acts = append(acts, simkit.Action{Prio: 1, Key: fmt.Sprintf("op install c%d n%d", ci, id), Weight: w, Do: func() { q.startInstall(ci, id, false) }})
 				if q.r.Property == "C04" {
-					if _, ok := cs.installedOK[id]; ok {
+					if om := q.ownerModel(cs, id, n.inc); om.seen && len(om.history) > 0 {
 						acts = append(acts, simkit.Action{Prio: 2, Key: fmt.Sprintf("op install-old c%d n%d", ci, id), Weight: 1 + c.StaleBias, Do: func() { q.startInstall(ci, id, true) }})
 					}
 				}
@@ -307,7 +313,16 @@ func (q *qworld) collect() []simkit.Action {
 				id := id
 				n := q.nodes[id]
 				a, ok := cs.installedOK[id]
-				if !ok || !n.up || q.busy[okey(id, ci)] != nil {
+				if !n.up || q.busy[okey(id, ci)] != nil {
+					continue
+				}
+				if !ok {
+					// C04: a client that still addresses a deposed or fenced owner under the
+					// authority it last led with (the owner must refuse)
+					if om := q.ownerModel(cs, id, n.inc); q.r.Property == "C04" && len(om.history) > 0 {
+						old := om.history[len(om.history)-1]
+						acts = append(acts, simkit.Action{Prio: 2, Key: fmt.Sprintf("op commit-deposed c%d n%d", ci, id), Weight: 1 + c.StaleBias, Do: func() { q.startCommit(ci, id, old) }})
+					}
 					continue
 				}
 				w := 12
@@ -453,11 +468,14 @@ func (q *qworld) startInstall(ci int, id ch.NodeID, old bool) {
 	n := q.nodes[id]
 	var auth replication.Authority
 	if old {
-		// deliberately re-issue an authority that is not newer than the one this owner holds
-		prev := cs.installedOK[id]
+		// deliberately re-issue an authority that is not newer than the newest one
+		// this owner was handed: an authority it led under before (a deposed
+		// leader's control plane message arriving late), or a lowered variant
+		om := q.ownerModel(cs, id, n.inc)
+		prev := om.history[len(om.history)-1-q.r.Tape.PickOldestBiased(len(om.history))]
 		auth = prev
-		switch q.r.Tape.Intn(3) {
-		case 0: // equal authority (idempotent re-install is legal)
+		switch q.r.Tape.Intn(4) {
+		case 0, 3: // exactly that earlier authority (an equal re-install is legal, an older one is not)
 		case 1:
 			if auth.ID.LeaderTerm > 1 {
 				auth.ID.LeaderTerm--
@@ -491,9 +509,10 @@ func (q *qworld) startInstall(ci int, id ch.NodeID, old bool) {
 	q.nextOp++
 	op := &opResult{opID: q.nextOp, kind: opInstall, node: id, nodeInc: n.inc, channel: ci, auth: auth, invoked: q.r.Steps,
 		answered: map[ch.NodeID]bool{id: true}, holdAtStart: map[ch.NodeID]map[uint64]bool{},
-		probeSent: map[ch.NodeID]int{}, probeAnswered: map[ch.NodeID]int{}}
+		probeSent: map[ch.NodeID]int{}, probeAnswered: map[ch.NodeID]int{}, viewsAtStart: map[ch.NodeID]replicaView{}}
 	for _, oid := range q.ids {
 		v := q.view(q.nodes[oid], cs)
+		op.viewsAtStart[oid] = v
 		h := map[uint64]bool{}
 		for seq, le := range cs.ledger {
 			if q.holds(v, seq, le.identity) {
@@ -504,6 +523,7 @@ func (q *qworld) startInstall(ci int, id ch.NodeID, old bool) {
 	}
 	q.busy[okey(id, ci)] = op
 	cs.installs = append(cs.installs, op)
+	q.notePoison(cs, op)
 	cs.ops = append(cs.ops, op)
 	if len(cs.ledger) > 0 {
 		q.overlaps++
@@ -575,9 +595,11 @@ func (q *qworld) startCommit(ci int, id ch.NodeID, auth replication.Authority) {
 		exactRetry: exact, conflicting: conflicting}
 	op.leoBefore = q.view(n, cs).leo
 	q.busy[okey(id, ci)] = op
+	q.notePoison(cs, op)
 	cs.ops = append(cs.ops, op)
 	q.r.Logf("  op%d COMMIT c%d n%d auth=%d.%d.%d cmd=%x n=%d retry=%v conflict=%v", op.opID, ci, id, auth.ID.ChannelEpoch, auth.ID.LeaderTerm, auth.ID.FenceVersion, cmd.id[:3], len(recs), exact, conflicting)
-	prop := replication.Proposal{Key: cs.key, Expected: auth.ID, CommandID: cmd.id, Records: cloneRecs(recs)}
+	// the allocator proof is a property of the command (retries must repeat it): ids are unique per run
+	prop := replication.Proposal{Key: cs.key, Expected: auth.ID, CommandID: cmd.id, Records: cloneRecs(recs), ServerAllocatedMessageIDs: cmd.id[2]%2 == 1}
 	rt, ctx := n.rt, n.ctx
 	go func() {
 		cctx, cancel := context.WithTimeout(ctx, 20*time.Second)
@@ -646,9 +668,23 @@ func errName(err error) string {
 }
 
 // highest authority for which an Install returned nil on this owner before step `before`
-type ownerHist struct {
-	step int
-	auth replication.Authority
+type ownerModel struct {
+	seen    bool
+	max     replication.Authority   // highest authority this owner incarnation has been handed
+	history []replication.Authority // authorities whose Install returned nil on it, in order
+}
+
+func (q *qworld) ownerModel(cs *chanState, node ch.NodeID, inc int) *ownerModel {
+	if cs.owners == nil {
+		cs.owners = map[string]*ownerModel{}
+	}
+	k := fmt.Sprintf("%d/%d", node, inc)
+	om := cs.owners[k]
+	if om == nil {
+		om = &ownerModel{}
+		cs.owners[k] = om
+	}
+	return om
 }
 
 func (q *qworld) onInstallDone(op *opResult) {
@@ -657,6 +693,16 @@ func (q *qworld) onInstallDone(op *opResult) {
 	q.r.Logf("  op%d INSTALL done n%d -> %s leo=%d hw=%d answered=%v", op.opID, op.node, errName(op.err), op.installed.LEO, op.installed.HW, sortedNodeIDs(op.answered))
 	prev, hadPrev := cs.installedOK[op.node]
 	stillSame := n.up && n.inc == op.nodeInc
+	// owner model for C04: the highest authority this owner incarnation has been
+	// handed (Install returned nil, ErrWriteFenced, or failed in recovery - every
+	// outcome except a refusal of the authority itself) and whether it fences.
+	om := q.ownerModel(cs, op.node, op.nodeInc)
+	refused := errors.Is(op.err, ch.ErrStaleMeta) || errors.Is(op.err, ch.ErrInvalidConfig) || errors.Is(op.err, ch.ErrLogConflict)
+	seenBefore := om.seen
+	maxBefore := om.max
+	if !refused && stillSame && (!om.seen || cmpAuth(op.auth.ID, om.max.ID) > 0) {
+		om.seen, om.max = true, op.auth
+	}
 	if op.err != nil {
 		// a failed install of a NEWER authority leaves the owner not ready; it no longer leads
 		if hadPrev && stillSame && cmpAuth(op.auth.ID, prev.ID) > 0 {
@@ -664,17 +710,22 @@ func (q *qworld) onInstallDone(op *opResult) {
 		}
 		return
 	}
-	// C04: an older authority can never be installed again
-	if hadPrev && stillSame && cmpAuth(op.auth.ID, prev.ID) < 0 {
-		q.fail("older-authority-installed", "", fmt.Sprintf("c%d n%d: Install(%v) succeeded after Install(%v) had succeeded on the same owner", op.channel, op.node, op.auth.ID, prev.ID), nil)
+	// C04: an older authority can never be installed again on an owner that was
+	// handed a newer one (whether that newer install succeeded, was fenced, or
+	// failed during recovery)
+	if stillSame && seenBefore && cmpAuth(op.auth.ID, maxBefore.ID) < 0 {
+		sig := "after-successful-newer-install"
+		if !hadPrev || cmpAuth(prev.ID, maxBefore.ID) < 0 {
+			sig = "after-fenced-or-failed-newer-install"
+		}
+		q.fail("older-authority-installed", sig, fmt.Sprintf("c%d n%d: Install(%v) succeeded although this owner had already been handed authority %v (fence set=%v)", op.channel, op.node, op.auth.ID, maxBefore.ID, maxBefore.WriteFence.Set()), nil)
 	}
 	if op.auth.WriteFence.Set() {
 		q.fail("fenced-append-acked", "install", fmt.Sprintf("c%d n%d: Install with an active write fence returned success", op.channel, op.node), nil)
 	}
 	if stillSame {
-		if !hadPrev || cmpAuth(op.auth.ID, prev.ID) >= 0 {
-			cs.installedOK[op.node] = op.auth
-		}
+		cs.installedOK[op.node] = op.auth
+		om.history = append(om.history, op.auth)
 	}
 	q.r.Probe("install_ok")
 	if op.installed.LEO > 0 {
@@ -710,6 +761,8 @@ func (q *qworld) onInstallDone(op *opResult) {
 		case class == "ack-lost-at-install" && q.otherAuthorityActive(cs, op):
 			// another authority's commit or install was in flight on another voter during this install
 			sig = "install-overlapped-other-authority"
+		case class == "ack-lost-at-install" && cs.poisoned:
+			sig = "after-overlapping-authorities"
 		case class == "ack-lost-at-install" && holders >= 1 && holders < q.cfg.Q && !all:
 			sig = "minority-of-responders-held-entry"
 		}
@@ -717,6 +770,70 @@ func (q *qworld) onInstallDone(op *opResult) {
 			op.channel, op.auth.ID, op.node, op.installed.LEO, op.installed.HW, seq, le.cmd, v.leo, sortedNodeIDs(op.answered), holders, q.cfg.Q, all),
 			map[string]any{"responders": len(op.answered), "holders": holders, "Q": q.cfg.Q, "all_answered": all})
 		return
+	}
+	// C02: a writable leader whose log lacks (or replaces) an entry that some
+	// replica already holds at or below its persisted committed watermark. Such
+	// an entry need not have been acknowledged to a client (an earlier recovery
+	// may have certified it); the divergence at committed offsets it leads to is
+	// reported here, at the event that causes it.
+	for _, oid := range q.ids {
+		sv := op.viewsAtStart[oid]
+		if sv.err != nil {
+			continue
+		}
+		for seq := uint64(1); seq <= sv.committed && int(seq) <= len(sv.ids); seq++ {
+			id := sv.ids[seq-1]
+			if q.holds(v, seq, id) {
+				continue
+			}
+			holders := 0
+			all := true
+			for _, rid := range q.ids {
+				if !op.answered[rid] {
+					all = false
+					continue
+				}
+				if q.holds(op.viewsAtStart[rid], seq, id) {
+					holders++
+				}
+			}
+			sig := "other"
+			switch {
+			case q.otherAuthorityActive(cs, op):
+				sig = "install-overlapped-other-authority"
+			case cs.poisoned:
+				// committed watermarks and votes produced earlier under overlapping
+				// authorities are already unsound evidence (same root cause)
+				sig = "after-overlapping-authorities"
+			case holders >= 1 && holders < q.cfg.Q && !all:
+				sig = "minority-of-responders-held-entry"
+			}
+			q.fail("committed-entry-dropped-at-install", sig, fmt.Sprintf("c%d: Install(%v) on n%d returned LEO=%d but offset %d, committed on n%d (committed=%d, term %d cmd %x) before the install, is absent or different in the new leader's log (leo=%d); responders=%v holders_among_responders=%d Q=%d all_voters_answered=%v",
+				op.channel, op.auth.ID, op.node, op.installed.LEO, seq, oid, sv.committed, id.LeaderTerm, id.CommandID[:3], v.leo, sortedNodeIDs(op.answered), holders, q.cfg.Q, all), nil)
+			return
+		}
+	}
+}
+
+// notePoison marks the channel once operations of two different authorities
+// on two different voters have overlapped in time, or an older authority's
+// leader acted after a newer authority had been issued. Only the adversarial
+// control-plane regime can do that.
+func (q *qworld) notePoison(cs *chanState, op *opResult) {
+	if cs.poisoned {
+		return
+	}
+	if cmpAuth(op.auth.ID, cs.auth) < 0 {
+		cs.poisoned = true
+		q.r.Probe("channel_poisoned_by_overlapping_authorities")
+		return
+	}
+	for _, o := range cs.ops {
+		if o.doneStep == 0 && o.node != op.node && o.auth.ID != op.auth.ID {
+			cs.poisoned = true
+			q.r.Probe("channel_poisoned_by_overlapping_authorities")
+			return
+		}
 	}
 }
 
@@ -790,8 +907,12 @@ func (q *qworld) onCommitDone(op *opResult) {
 		return
 	}
 	// ---- C04: authority / fence ------------------------------------------------
-	if cur, ok := cs.installedOK[op.node]; ok && n.inc == op.nodeInc && cmpAuth(cur.ID, op.auth.ID) > 0 {
-		q.fail("stale-authority-acked", "", fmt.Sprintf("c%d n%d: Commit under %v acknowledged although Install(%v) had succeeded on this owner before the commit was invoked", op.channel, op.node, op.auth.ID, cur.ID), nil)
+	if om := q.ownerModel(cs, op.node, op.nodeInc); om.seen {
+		if cmpAuth(om.max.ID, op.auth.ID) > 0 {
+			q.fail("stale-authority-acked", "", fmt.Sprintf("c%d n%d: Commit under %v acknowledged although this owner had been handed the newer authority %v before the commit was invoked", op.channel, op.node, op.auth.ID, om.max.ID), nil)
+		} else if om.max.ID == op.auth.ID && om.max.WriteFence.Set() {
+			q.fail("fenced-append-acked", "commit", fmt.Sprintf("c%d n%d: Commit acknowledged while the write fence of authority %v is active on this owner", op.channel, op.node, om.max.ID), nil)
+		}
 	}
 	if op.auth.WriteFence.Set() {
 		q.fail("fenced-append-acked", "commit", fmt.Sprintf("c%d n%d: Commit acknowledged under a fenced authority", op.channel, op.node), nil)
